@@ -130,7 +130,31 @@ def build_source(ctx, rng, kind, idx):
             m[0] = True
         set_mask(ds, m)
         p2 = tmp / f"c02_bas_{idx}.rtdc"
-        ds.export.hdf5(p2, features=some, filtered=filt, basins=True, override=True)
+        explicit = bool(rng.random() < 0.5) and len(ds) >= 2
+        if explicit:
+            # referrer written with store_basin and a mapping that is not ascending: a
+            # permutation of a subset, or with repeated indices
+            from dclab import definitions as dfn_
+            k = int(rng.integers(1, len(ds) + 1))
+            bmap = rng.permutation(len(ds))[:k] if rng.random() < 0.7 \
+                else rng.integers(0, len(ds), k)
+            bmap = np.asarray(bmap, dtype=np.uint64)
+            meta = {sec: dict(ds.config[sec]) for sec in dfn_.CFG_METADATA if sec in ds.config}
+            meta["experiment"]["event count"] = int(k)
+            with dclab.RTDCWriter(p2, mode="reset") as hw:
+                hw.store_metadata(meta)
+                stored_sc = [f for f in some if dfn_.scalar_feature_exists(f)]
+                if not stored_sc:
+                    stored_sc = [f for f in ds.features_innate
+                                 if dfn_.scalar_feature_exists(f)][:1]
+                for f in stored_sc:
+                    hw.store_feature(f, np.asarray(ds[f][:])[bmap.astype(np.int64)])
+                hw.store_basin(basin_name="mapped origin", basin_type="file",
+                               basin_format="hdf5", basin_locs=[str(path)], basin_map=bmap)
+            desc["basin_map"] = "explicit, not ascending"
+            ctx.count("basin_sources_with_unsorted_map")
+        else:
+            ds.export.hdf5(p2, features=some, filtered=filt, basins=True, override=True)
         set_mask(ds, np.ones(len(ds), bool))
         ds2 = dclab.new_dataset(p2)
         closers.append(ds2)
